@@ -46,6 +46,35 @@ type NomResult<'a, T> = IResult<&'a [u8], T, NomError<&'a [u8]>>;
 
 const ATOM_CACHE_SIZE: usize = 256;
 
+/// Containers nested deeper than this are rejected: the parsers recurse once per level and
+/// untrusted input must not be able to exhaust the stack of the calling thread.
+const MAX_NESTING_DEPTH: usize = 256;
+
+thread_local! {
+    static NESTING_DEPTH: std::cell::Cell<usize> = const { std::cell::Cell::new(0) };
+}
+
+struct NestingGuard;
+
+impl NestingGuard {
+    fn enter<'a>(input: &'a [u8]) -> Result<Self, nom::Err<NomError<&'a [u8]>>> {
+        NESTING_DEPTH.with(|depth| {
+            if depth.get() >= MAX_NESTING_DEPTH {
+                Err(nom::Err::Failure(NomError::new(input, ErrorKind::TooLarge)))
+            } else {
+                depth.set(depth.get() + 1);
+                Ok(NestingGuard)
+            }
+        })
+    }
+}
+
+impl Drop for NestingGuard {
+    fn drop(&mut self) {
+        NESTING_DEPTH.with(|depth| depth.set(depth.get() - 1));
+    }
+}
+
 #[derive(Debug, Clone)]
 pub struct AtomCache {
     /// Keyed by the cache slot: segment index (3 bits) << 8 | internal segment index.
@@ -271,6 +300,7 @@ fn parse_term_from_tag<'a>(
     tag: u8,
     cache: &AtomCache,
 ) -> NomResult<'a, OwnedTerm> {
+    let _nesting = NestingGuard::enter(input)?;
     match tag {
         SMALL_INTEGER_EXT => parse_small_integer(input),
         INTEGER_EXT => parse_integer(input),
@@ -950,6 +980,7 @@ fn parse_term_borrowed<'a>(
     ctx: &mut ParsingContext,
 ) -> NomResult<'a, BorrowedTerm<'a>> {
     ctx.byte_offset = original_len - input.len();
+    let _nesting = NestingGuard::enter(input)?;
     let (input, tag) = be_u8(input)?;
 
     match tag {
